@@ -264,6 +264,9 @@ class Project:
                     " the file contents."
                 ).format(path=path)
             )
+        elif path.exists() and not (path.is_file() or path.is_dir()):
+            # E.g. a FIFO called FILE.license: opening it could block forever.
+            raise OSError(f"{path} is not a file")
         elif is_binary(str(path)):
             _LOGGER.info(
                 _(
